@@ -36,11 +36,51 @@ DOCS = [
     ('html5lib', '<html lang="en-US"><head>' + META % 'de' + '</head><body><div lang="fr"><p id="h1">a</p></div>'
      '<form><input type="radio" name="k" checked id="h2"><input type="radio" name="k" id="h3"><input type="submit" id="h4"></form>'
      '<p id="h5" dir="rtl">b</p></body></html>'),
+    # 4: outer document with a <meta> language, iframe whose own document has no language information at all
+    ('html.parser', '<html><head>' + META % 'en' + '</head><body><p id="o1">x</p><div><p id="o2">y</p></div>'
+     '<iframe id="if2"><html><head><title>i</title></head><body><p id="i1">i</p><form><input type="radio" name="g" id="i2"><input type="submit" id="i3"></form>'
+     '</body></html></iframe><p id="o3">z</p><form id="of"><input type="radio" name="g" checked id="o4"><input type="radio" name="g" id="o5"></form></body></html>'),
+    # 5: plain XML with a prefixed namespace and HTML-looking attributes
+    ('xml', '<r xmlns:x="urn:x"><x:item id="1"/><x:item id="2" checked="checked"/><x:item id="3" disabled="disabled"/><item id="4"/>'
+     '<x:item id="5"><x:item id="6"/></x:item></r>'),
 ]
+NS = {'x': 'urn:x'}
+
+
+def _rand_doc(rng):
+    """seeded random HTML document over the features whose evaluation is memoised or document-wide"""
+    def block(depth):
+        k = rng.randrange(7)
+        if k == 0:
+            return '<p%s>t</p>' % rng.choice(['', ' lang="de"', ' lang=""', ' lang="en-GB"'])
+        if k == 1 and depth < 2:
+            return '<div%s>%s</div>' % (rng.choice(['', ' lang=""', ' lang="fr"', ' dir="rtl"']), ''.join(block(depth + 1) for _ in range(rng.randint(1, 3))))
+        if k == 2:
+            name = rng.choice(['g', 'h'])
+            return '<form>%s%s</form>' % (''.join('<input type="radio" name="%s"%s>' % (rng.choice([name, 'k']), rng.choice(['', '', ' checked']))
+                                                  for _ in range(rng.randint(1, 3))),
+                                          rng.choice(['', '<input type="submit">', '<button type="submit">b</button><input type="submit">']))
+        if k == 3 and depth < 2:
+            return '<iframe><html><head>%s</head><body>%s</body></html></iframe>' % (
+                rng.choice(['', META % 'fr', META % 'en']), ''.join(block(depth + 1) for _ in range(rng.randint(1, 3))))
+        if k == 4:
+            return '<input type="radio" name="%s"%s>' % (rng.choice(['g', 'h']), rng.choice(['', ' checked']))
+        if k == 5:
+            return '<input type="checkbox"%s><span>x</span>' % rng.choice(['', ' checked', ' indeterminate'])
+        return '<p>x</p><p>x</p>'
+    return ('html.parser', '<html%s><head>%s</head><body>%s</body></html>' % (
+        rng.choice(['', '', ' lang="en"']), rng.choice(['', META % 'en', META % 'de']), ''.join(block(0) for _ in range(rng.randint(2, 5)))))
+
+
+def _all_docs():
+    rng = random.Random(common.SEED * 131 + 4)
+    return DOCS + [_rand_doc(rng) for _ in range(6)]
 SELS = [':lang("")', ':lang(en)', ':lang("*")', ':default', ':indeterminate', ':checked', 'p',
         ':is(:default, p:lang(en))', ':root', 'form :default', ':not(:lang(en))', '[lang]', ':dir(ltr)',
         ':has(> :default)', ':nth-child(2 of :lang(en))', ':scope > *', ':lang(de, fr)', 'input:not(:indeterminate)',
-        ':-soup-contains(x)', ':enabled']
+        ':-soup-contains(x)', ':enabled', 'x|item:not(:checked)', 'x|item, :checked', ':is(x|item):not(:disabled)', 'x|*', 'p:lang(en)']
+# the order matters for the reduced BFS pools (prefixes of these lists): most history-sensitive first
+SELS = [SELS[i] for i in (1, 20, 3, 4, 0, 24, 16, 21)] + [x for i, x in enumerate(SELS) if i not in (1, 20, 3, 4, 0, 24, 16, 21)]
 USES_SCOPE = {':scope > *'}
 KINDS = ['select', 'match', 'filter', 'closest', 'select_one', 'iselect1', 'filter_iter']
 
@@ -62,7 +102,8 @@ def _run_histories(args):
     wid, hists = args
     warnings.simplefilter('ignore')
     sv, bs4 = common.import_repo()
-    soups = [bs4.BeautifulSoup(m, p) for p, m in DOCS]
+    docs = _all_docs()
+    soups = [bs4.BeautifulSoup(m, p) for p, m in docs]
     lines = []
     index = []
     for soup in soups:
@@ -71,7 +112,7 @@ def _run_histories(args):
     # pristine reference: every element of a deep copy asked on its own (a new matcher per question)
     for d, soup in enumerate(soups):
         # (copy.deepcopy of an html5lib BeautifulSoup object re-creates html5lib's skeleton: re-parse instead)
-        cp = bs4.BeautifulSoup(DOCS[d][1], DOCS[d][0])
+        cp = bs4.BeautifulSoup(docs[d][1], docs[d][0])
         assert [(type(n).__name__, getattr(n, 'name', None)) for n in cp.descendants] == \
             [(type(n).__name__, getattr(n, 'name', None)) for n in soup.descendants]
         cidx = {id(n): i + 1 for i, n in enumerate(cp.descendants)}
@@ -79,7 +120,7 @@ def _run_histories(args):
         for s, css in enumerate(SELS):
             if css in USES_SCOPE:
                 continue
-            obs = [{'sc': 0, 'el': cidx[id(e)], 'v': bool(sv.match(css, e))} for e in els]
+            obs = [{'sc': 0, 'el': cidx[id(e)], 'v': bool(sv.match(css, e, NS))} for e in els]
             lines.append(json.dumps({'id': 'w%d.pristine.%d.%d' % (wid, d, s), 'doc': d, 'sel': s, 'obs': obs,
                                      'frozen': True, 'what': 'pristine copy, match(%r) per element' % css}))
     tg = [_targets(s, bs4) for s in soups]
@@ -99,18 +140,18 @@ def _run_histories(args):
             obs = []
             try:
                 if kind == 'select':
-                    res = {id(x) for x in sv.select(css, target)}
+                    res = {id(x) for x in sv.select(css, target, NS)}
                     obs = [{'sc': tsc, 'el': idx[id(e)], 'v': id(e) in res}
                            for e in target.descendants if isinstance(e, bs4.Tag)]
                 elif kind == 'match':
                     if not is_doc:
-                        obs = [{'sc': sc(target), 'el': idx[id(target)], 'v': bool(sv.match(css, target))}]
+                        obs = [{'sc': sc(target), 'el': idx[id(target)], 'v': bool(sv.match(css, target, NS))}]
                 elif kind == 'filter':
-                    res = {id(x) for x in sv.filter(css, target)}
+                    res = {id(x) for x in sv.filter(css, target, NS)}
                     obs = [{'sc': tsc, 'el': idx[id(e)], 'v': id(e) in res} for e in target.contents if isinstance(e, bs4.Tag)]
                 elif kind == 'closest':
                     if not is_doc:
-                        r = sv.closest(css, target)
+                        r = sv.closest(css, target, NS)
                         cur = target
                         while cur is not None and not isinstance(cur, bs4.BeautifulSoup):
                             obs.append({'sc': sc(target), 'el': idx[id(cur)], 'v': cur is r})
@@ -119,9 +160,9 @@ def _run_histories(args):
                             cur = cur.parent
                 elif kind in ('select_one', 'iselect1'):
                     if kind == 'select_one':
-                        r = sv.select_one(css, target)
+                        r = sv.select_one(css, target, NS)
                     else:
-                        it = sv.iselect(css, target)
+                        it = sv.iselect(css, target, NS)
                         r = next(it, None)
                         del it
                     for e in target.descendants:
@@ -131,7 +172,7 @@ def _run_histories(args):
                                 break
                 else:
                     items = [e for e in soup.descendants if isinstance(e, bs4.Tag)][::-1]
-                    res = {id(x) for x in sv.filter(css, items)}
+                    res = {id(x) for x in sv.filter(css, items, NS)}
                     obs = [{'sc': sc(e), 'el': idx[id(e)], 'v': id(e) in res} for e in items]
                 exc = None
             except Exception as ex:
@@ -171,10 +212,10 @@ def main(tier):
             chk.machinery('negative model store_empty was not refuted (vacuity guard)')
     # ---- histories from TLC ------------------------------------------------------------------
     hists = []
-    nk, nd, ns, nt = len(KINDS), len(DOCS), len(SELS), 6
+    nk, nd, ns, nt = len(KINDS), len(_all_docs()), len(SELS), 6
     if tier == 'quick':
-        gens = [({'H': 2, 'NKinds': 4, 'NDocs': nd, 'NSels': 8, 'NTgts': 2, 'SameDoc': 'TRUE'}, None)]
-        sim = (1500, 6)
+        gens = [({'H': 2, 'NKinds': 3, 'NDocs': nd, 'NSels': 8, 'NTgts': 2, 'SameDoc': 'TRUE'}, None)]
+        sim = (2500, 6)
     else:
         gens = [({'H': 2, 'NKinds': nk, 'NDocs': nd, 'NSels': ns, 'NTgts': 3, 'SameDoc': 'TRUE'}, None)]
         sim = (20000, 8)
